@@ -391,6 +391,43 @@ def registry_body(ctx, case):
         raise HarnessError("public callables without an argument builder: %r" % missing)
 
 
+# ------------------------------------------------------------------ hidden state across calls: main process vs pristine process
+
+def fresh_cases(tier):
+    names = names_strategy()
+    return [{"name": n, "variant": v, "seed": 77 + i} for i, n in enumerate(names) for v in (["f64"] if tier == "quick" else ["f64", "f32", "view"])]
+
+
+def fresh_body(ctx, case):
+    """Call f on other arguments first (the worker has also executed many other calls), then on the case's arguments;
+    the result must be what a pristine interpreter computes for the case's arguments alone.  This exposes caches or
+    other module-level state keyed on less than the full argument list, which in-process repetition cannot see."""
+    import json, os, subprocess, sys
+    from ..core import VERIF_DIR, REPO_DIR, HarnessError
+    from ..isolated_call import digest
+    R, _ = REG()
+    name, variant, seed = case["name"], case["variant"], case["seed"]
+    fn, builder, _ = R[name]
+    ctx.case(case, nontrivial=True, classes=["fn_" + name.split(".")[-1]])
+    st_np = np.random.get_state()
+    try:
+        for other in (seed + 1000, seed + 2000):          # neighbouring arguments: same shapes and dtypes, other values
+            a0, k0 = builder(A(other, variant))
+            np.random.seed(other % (2**32))
+            quiet(call, name, fn, a0, k0)
+        args, kwargs = builder(A(seed, variant))
+        np.random.seed(seed % (2**32))
+        here = digest(quiet(call, name, fn, args, kwargs))
+    finally:
+        np.random.set_state(st_np)
+    env = dict(os.environ, PYTHONPATH=VERIF_DIR, VERIF_REPO=REPO_DIR, PYTHONHASHSEED="0", NUMBA_NUM_THREADS="1", OMP_NUM_THREADS="1", MPLBACKEND="Agg")
+    p = subprocess.run([sys.executable, "-m", "vt.isolated_call", name, variant, str(seed)], capture_output=True, text=True, env=env, cwd=VERIF_DIR, timeout=900)
+    if p.returncode != 0:
+        raise HarnessError("isolated call of %s failed: %s" % (name, p.stderr[-400:]))
+    fresh = json.loads(p.stdout)["digest"]
+    ctx.require(here == fresh, "%s returns a different result after earlier calls with other arguments than in a pristine process (hidden state between calls)" % name)
+
+
 # ------------------------------------------------------------------ law 3: batch == per item
 
 BATCH = {
@@ -531,6 +568,7 @@ def replay_history(ctx, history):
 LAWS = [
     plain_law("registry_complete", lambda tier: [{"check": "registry"}], registry_body),
     plain_law("every_function_every_variant", round_robin_cases, one_call_body, shards={"quick": 8, "thorough": 16}),
+    plain_law("pristine_process_agreement", fresh_cases, fresh_body, shards={"quick": 12, "thorough": 16}),
     given_law("no_mutation_repeatable", one_call_cases(), one_call_body, {"quick": 100, "thorough": 1200}, shards={"quick": 6, "thorough": 16}),
     given_law("batch", batch_cases(), batch_body, {"quick": 150, "thorough": 2000}, shards={"quick": 3, "thorough": 16}),
     machine_law("programs", make_machine, replay_history, {"quick": 60, "thorough": 600}, {"quick": 12, "thorough": 25}, shards={"quick": 6, "thorough": 16}),
